@@ -12,7 +12,7 @@ are evaluated as the library defines them.  Compared with the specification:
 import ast
 
 from engine import docterm as D
-from engine.interp import (Const, Sym, SymStr, ListV, TupleV, DocV, NONE, Undecided, Raised, PathLimit, Interp, prov)
+from engine.interp import (Const, Sym, SymStr, ListV, TupleV, DocV, NONE, Undecided, Raised, PathLimit, LoopLimit, Interp, prov)
 from engine.loader import AnalysisError
 
 TEXTS = [
@@ -21,6 +21,8 @@ TEXTS = [
     "customer's final \"offer\" isn't it's", 'multi\nline\ntext', 'tab\tand\rcr', 'zero​width  sep', 'snow☃man \U0001f600 face', '\x00\x01nul',
     'ends with backslash\\', '"', "'", "\\", '  ', "a'b" * 3, 'q"q' * 3,
     "'tis Pat's dog's 5\" lead", "the 'a' and the 'b' and 'c' in \"abc\"",
+    # runs of combining marks (longer than any piece), accents, wide and ambiguous-width characters
+    'Z' + '\u0301' * 16 + ' tail', 'cafe\u0301 nai\u0308ve re\u0301sume\u0301', '\u6f22\u5b57\u304b\u306a \u00b1\u00b0 mixed',
 ]
 BYTES = [b"'x' 'y' 'z' \"w\" and some more bytes", b'bytes and more', b'nospacesatallhere', b'https://www.example.com/a&&b', b"it's \"q\"", b'\x00\x00\xff\xfe high', b'-----', b'', b'x', b"'\"", b'back\\slash \\" q',
          b'caf\xc3\xa9 au lait', b'a\nb\tc']
@@ -44,6 +46,7 @@ def run(repo, rep, rules=None):
         raise AnalysisError('string helpers vanished: %s' % missing)
     it = Interp(repo, {}, max_paths=4)
     it.concrete_context = True
+    it.max_while = 4000
     it.eager_generators = {f.name for f in m.funcs.values()} | {f.name for f in repo.module('utils').funcs.values()}
     stats = {k: [0, []] for k in ('pieces', 'nonempty', 'escaping', 'quotes', 'display')}
     und = []
@@ -95,6 +98,10 @@ def run(repo, rep, rules=None):
                         pieces = const_items(call('str_to_lines', [Const(w), Const(qq), Const(s)]))
                     except Raised as e:
                         stats['pieces'][1].append('str_to_lines(%d, %r, %r) raises %s' % (w, qq, s, e.what))
+                        continue
+                    except LoopLimit as e:
+                        # a concrete text of a few dozen characters and a loop bound of thousands: the splitter makes no progress
+                        stats['pieces'][1].append('str_to_lines(%d, %r, %r) does not terminate (%s): pformat of such a value hangs' % (w, qq, s, e))
                         continue
                     empty = s[:0]
                     joined = empty.join(pieces) if all(type(p) is type(s) for p in pieces) else None
